@@ -517,63 +517,74 @@ class Check:
         cov["generated_tables"] = tr.get("tables", tr["status"])
         cov["translator"] = tr["status"]
         clean = self.tier == "thorough" and os.environ.get("VERIF_NO_CLEAN") != "1"
-        target = "Properties/%s.vo" % self.prop
+        # a property may have several statement files: Properties/Cxx.v, Properties/Cxx_*.v
+        pdir = os.path.join(COQ, "Properties")
+        files = sorted(f[:-2] for f in os.listdir(pdir)
+                       if f.endswith(".v") and (f[:-2] == self.prop or f.startswith(self.prop + "_")))
+        gen_coqproject()
+        listed = open(os.path.join(COQ, "_CoqProject")).read()
+        files = [f for f in files if ("Properties/%s.v" % f) in listed] or [self.prop]
+        targets = ["Properties/%s.vo" % f for f in files]
+        target = " ".join(targets)
         cov["checker_cmd"] = "cd coq && coq_makefile -f _CoqProject -o Makefile && make -j16 %s  (coqc 8.16.1, full .vo build%s)" % (
             target, "; from clean; then coqchk -o -silent" if clean else "")
         problems = audit_sources()
         if problems:
             self.proof_failure = {"stage": "source audit", "detail": problems[:20]}
         try:
-            if clean:
-                # rebuild this property's closure from scratch
-                rc, out = coq_make([target], clean=True, timeout=3000)
-            else:
-                rc, out = coq_make([target], timeout=3000)
+            rc, out = coq_make(targets, clean=clean, timeout=3000)
         except subprocess.TimeoutExpired:
             rc, out = 1, "timeout"
         if rc != 0:
             self.proof_failure = self.proof_failure or {"stage": "coq build", "detail": tail_error(out)}
             cov["obligations"] = max(cov["obligations"], 1)
             return False
-        rc, out = property_log(self.prop)
-        if rc != 0:
-            self.proof_failure = self.proof_failure or {"stage": "property file", "detail": tail_error(out)}
-            cov["obligations"] = max(cov["obligations"], 1)
-            return False
-        checks, closed, axioms, per_thm = parse_property_log(out)
-        src = strip_coq_comments(open(os.path.join(COQ, "Properties", self.prop + ".v"), encoding="utf-8").read())
-        thms = re.findall(r"^(?:Theorem|Example|Lemma|Corollary)\s+([\w']+)", src, re.M)
-        cov["obligations"] = len(thms)
-        cov["theorems"] = {}
-        pin_path = os.path.join(COQ, "Properties", "pins", self.prop + ".json")
-        pins = json.load(open(pin_path)) if os.path.exists(pin_path) else {}
+        thms = []
         bad = []
-        for t in thms:
-            st = checks.get(t)
-            if st is None:
-                bad.append("no Check output for %s" % t)
-                continue
-            cov["theorems"][t] = hashlib.sha1(st.encode()).hexdigest()[:16]
-            if t in pins and pins[t] != st:
-                bad.append("statement of %s differs from its pin" % t)
-            if t not in pins:
-                bad.append("theorem %s has no pinned statement (run tools/pin.py)" % t)
-        for p in pins:
-            if p not in thms:
-                bad.append("pinned theorem %s is missing" % p)
+        axioms = set()
+        per_thm = {}
+        cov["theorems"] = {}
+        for fbase in files:
+            rc, out = property_log(fbase)
+            if rc != 0:
+                self.proof_failure = self.proof_failure or {"stage": "property file " + fbase, "detail": tail_error(out)}
+                cov["obligations"] = max(cov["obligations"], 1)
+                return False
+            checks, closed, ax, per = parse_property_log(out)
+            axioms |= ax
+            per_thm.update(per)
+            src = strip_coq_comments(open(os.path.join(pdir, fbase + ".v"), encoding="utf-8").read())
+            fthms = re.findall(r"^(?:Theorem|Example|Lemma|Corollary)\s+([\w']+)", src, re.M)
+            thms += fthms
+            pin_path = os.path.join(pdir, "pins", fbase + ".json")
+            pins = json.load(open(pin_path)) if os.path.exists(pin_path) else {}
+            for t in fthms:
+                st = checks.get(t)
+                if st is None:
+                    bad.append("no Check output for %s" % t)
+                    continue
+                cov["theorems"][t] = hashlib.sha1(st.encode()).hexdigest()[:16]
+                if t in pins and pins[t] != st:
+                    bad.append("statement of %s differs from its pin" % t)
+                if t not in pins:
+                    bad.append("theorem %s has no pinned statement (run tools/pin.py)" % t)
+            for pn in pins:
+                if pn not in fthms:
+                    bad.append("pinned theorem %s is missing" % pn)
+            n_assump = closed + len(re.findall(r"^Axioms:", out, re.M))
+            n_real_thms = len(re.findall(r"^Theorem\s", src, re.M))
+            if n_assump < n_real_thms:
+                bad.append("%s: Print Assumptions output missing for some theorem (%d < %d)" % (fbase, n_assump, n_real_thms))
+        cov["obligations"] = len(thms)
         extra = axioms - AXIOM_ALLOW
         if extra:
             bad.append("axioms outside the allow-list: %s" % sorted(extra))
-        n_assump = closed + len(re.findall(r"^Axioms:", out, re.M))
-        n_real_thms = len(re.findall(r"^Theorem\s", src, re.M))
-        if n_assump < n_real_thms:
-            bad.append("Print Assumptions output missing for some theorem (%d < %d)" % (n_assump, n_real_thms))
         cov["axioms_reported"] = sorted(axioms)
         cov["assumptions_per_theorem"] = {t: (per_thm.get(t) or "closed under the global context") for t in thms if t in per_thm}
         if self.proof_failure is None and bad:
             self.proof_failure = {"stage": "audit", "detail": bad}
         if clean and self.proof_failure is None:
-            rc, chk = sh("coqchk -o -silent -Q Model TauModel -Q Proofs TauProofs -Q Properties TauProps TauProps.%s" % self.prop,
+            rc, chk = sh("coqchk -o -silent -Q Model TauModel -Q Proofs TauProofs -Q Properties TauProps %s" % " ".join("TauProps." + f for f in files),
                          cwd=COQ, timeout=3000)
             cov["coqchk"] = chk.strip()[-1500:]
             if rc != 0:
